@@ -127,6 +127,7 @@ type fnDecl struct {
 }
 
 type pkgTr struct {
+	closureUse map[*ast.FuncLit]int // local closures: how often each was placed in line or spawned
 	fset      *token.FileSet
 	dir       string
 	module    string // Coq module name
@@ -357,6 +358,90 @@ type fctx struct {
 	sc     *scope
 	labels map[string]ast.Stmt
 	stack  []ast.Stmt // enclosing breakable statements (for / range / switch / select)
+	// local closures (name := func(...) {...}): a call of the name is translated as the closure's body in
+	// place, tg.Launch(name) / go name() as a spawned body
+	closures map[string]*ast.FuncLit
+	inlining int
+}
+
+// closureInlinable: the body may be placed at the call site when its only return statement (if any) is
+// its last statement -- a return in the middle would leave the closure, not the enclosing function
+func closureInlinable(fl *ast.FuncLit) bool {
+	n := len(fl.Body.List)
+	ok := true
+	for i, st := range fl.Body.List {
+		last := i == n-1
+		ast.Inspect(st, func(x ast.Node) bool {
+			if _, isLit := x.(*ast.FuncLit); isLit {
+				return false
+			}
+			if r, isRet := x.(*ast.ReturnStmt); isRet {
+				if !(last && ast.Node(r) == ast.Node(st)) {
+					ok = false
+				}
+			}
+			return true
+		})
+	}
+	return ok
+}
+
+func (c *fctx) inlineClosure(call *ast.CallExpr, fl *ast.FuncLit) *sk {
+	if c.inlining >= 3 || !closureInlinable(fl) {
+		return c.p.unknown(call, "call of a local closure that cannot be placed in line (early return or nesting)")
+	}
+	c.inlining++
+	defer func() { c.inlining-- }()
+	c.p.useClosure(fl)
+	args := c.exprs(call.Args)
+	c.push()
+	defer c.pop()
+	if fl.Type.Params != nil {
+		for _, f := range fl.Type.Params.List {
+			for _, n := range f.Names {
+				c.declare(n.Name, typeText(c.p.fset, f.Type))
+			}
+		}
+	}
+	stmts := fl.Body.List
+	var tail *sk
+	if n := len(stmts); n > 0 {
+		if r, ok := stmts[n-1].(*ast.ReturnStmt); ok {
+			tail = c.exprs(r.Results)
+			stmts = stmts[:n-1]
+		}
+	}
+	b := c.block(stmts)
+	if tail != nil {
+		return skSeq(args, b, tail)
+	}
+	return skSeq(args, b)
+}
+
+func (p *pkgTr) useClosure(fl *ast.FuncLit) {
+	if p.closureUse == nil {
+		p.closureUse = map[*ast.FuncLit]int{}
+	}
+	p.closureUse[fl]++
+}
+
+func (c *fctx) noteClosure(lhs ast.Expr, rhs ast.Expr) bool {
+	id, ok := lhs.(*ast.Ident)
+	fl, ok2 := rhs.(*ast.FuncLit)
+	if !ok || !ok2 {
+		return false
+	}
+	if c.closures == nil {
+		c.closures = map[string]*ast.FuncLit{}
+	}
+	c.closures[id.Name] = fl
+	if c.p.closureUse == nil {
+		c.p.closureUse = map[*ast.FuncLit]int{}
+	}
+	if _, seen := c.p.closureUse[fl]; !seen {
+		c.p.closureUse[fl] = 0
+	}
+	return true
 }
 
 func (c *fctx) push() { c.sc = &scope{vars: map[string]*vinfo{}, parent: c.sc} }
@@ -580,6 +665,11 @@ func (c *fctx) spawnArg(e ast.Expr) *sk {
 	switch x := e.(type) {
 	case *ast.FuncLit:
 		return c.spawnBody(x)
+	case *ast.Ident:
+		if fl, ok := c.closures[x.Name]; ok {
+			c.p.useClosure(fl)
+			return c.spawnBody(fl)
+		}
 	case *ast.SelectorExpr:
 		if path, ok := c.objPath(x); ok && len(path) == 1 {
 			if _, ok := c.p.funcs[c.p.objType+"."+path[0]]; ok {
@@ -625,6 +715,9 @@ func (c *fctx) call(x *ast.CallExpr) *sk {
 		}
 		if fd, ok := c.p.funcs[name]; ok && fd.recv == "" {
 			return skSeq(c.callArgs(x.Args), c.at(x, &sk{op: "Call", arg: fd.key}))
+		}
+		if fl, ok := c.closures[name]; ok {
+			return c.inlineClosure(x, fl)
 		}
 		return c.p.unknown(x, "call of an unknown function value")
 	case *ast.SelectorExpr:
@@ -1052,6 +1145,9 @@ func (c *fctx) stmt(s ast.Stmt) *sk {
 		return c.lhs(x.X)
 	case *ast.AssignStmt:
 		if hasFuncLit(x.Rhs) {
+			if len(x.Lhs) == 1 && len(x.Rhs) == 1 && x.Tok == token.DEFINE && c.noteClosure(x.Lhs[0], x.Rhs[0]) {
+				return skSkip()
+			}
 			return c.p.unknown(x, "closure stored in a variable")
 		}
 		r := c.exprsNoObj(x.Rhs) // "a := obj" is an alias, tracked by bind
@@ -1073,6 +1169,9 @@ func (c *fctx) stmt(s ast.Stmt) *sk {
 				continue
 			}
 			if hasFuncLit(vs.Values) {
+				if len(vs.Names) == 1 && len(vs.Values) == 1 && c.noteClosure(vs.Names[0], vs.Values[0]) {
+					continue
+				}
 				out = append(out, c.p.unknown(x, "closure stored in a variable"))
 				continue
 			}
@@ -1477,19 +1576,30 @@ func (p *pkgTr) emitFile(outDir string) (map[string]int, error) {
 	srcLock, srcUnlock := 0, 0
 	for _, k := range p.order {
 		if b := p.funcs[k].decl.Body; b != nil {
-			ast.Inspect(b, func(n ast.Node) bool {
-				if ce, ok := n.(*ast.CallExpr); ok {
-					if se, ok := ce.Fun.(*ast.SelectorExpr); ok {
-						switch se.Sel.Name {
-						case "Lock", "RLock", "TryLock":
-							srcLock++
-						case "Unlock", "RUnlock":
-							srcUnlock++
+			// a mutex call inside a local closure counts once per place the closure was put in line or spawned
+			var walk func(n ast.Node, weight int)
+			walk = func(n ast.Node, weight int) {
+				ast.Inspect(n, func(x ast.Node) bool {
+					if fl, ok := x.(*ast.FuncLit); ok {
+						if uses, local := p.closureUse[fl]; local {
+							walk(fl.Body, weight*uses)
+							return false
 						}
 					}
-				}
-				return true
-			})
+					if ce, ok := x.(*ast.CallExpr); ok {
+						if se, ok := ce.Fun.(*ast.SelectorExpr); ok {
+							switch se.Sel.Name {
+							case "Lock", "RLock", "TryLock":
+								srcLock += weight
+							case "Unlock", "RUnlock":
+								srcUnlock += weight
+							}
+						}
+					}
+					return true
+				})
+			}
+			walk(b, 1)
 		}
 	}
 	sb.WriteString(fmt.Sprintf("Definition source_lock_calls : nat * nat := (%d, %d).\n", srcLock, srcUnlock))
